@@ -224,7 +224,13 @@ func stableCheckAt(w *core.Worker, c *Case, from int, prefixes []int) (definitiv
 		F := c.P.New(c.Cfg)
 		// hostile slack after len: a verdict that peeks past the prefix is computed from bytes
 		// that differ from the real extension
-		n, e, pan, _ := safeCall(F, s.isoPrefix(c.Buf[:cut], cut), c.Start)
+		// ... and every other prefix length is handed over with capacity == length: a verdict
+		// must not depend on how much room the caller's slice has either
+		pre := s.isoPrefix(c.Buf[:cut], cut)
+		if cut&1 == 1 {
+			pre = s.exactPrefix(c.Buf[:cut])
+		}
+		n, e, pan, _ := safeCall(F, pre, c.Start)
 		w.Eval(1)
 		if pan != "" {
 			w.Inc("panicked(left to C04)")
